@@ -881,6 +881,14 @@ func Freeze() {
 	}
 }
 
+// Unfreeze ends a frozen phase (a prologue that only builds the state the
+// explored part starts from).
+func Unfreeze() {
+	if S != nil {
+		S.frozen = false
+	}
+}
+
 // Atomic is a visible step that is enabled when en() holds (en == nil: always);
 // the caller performs the effect right after it returns (no other thread runs
 // in between).
